@@ -291,10 +291,11 @@ theorem callOK_mapN (ν : NMap) (t : Term) (h : callOK t = true) : callOK (mapN 
   | _ => simp [callOK] at h
 
 mutual
-/-- goals of the fragment before renaming: no built-in predicate, calls with atom functors, no function term -/
+/-- goals of the fragment before renaming: no built-in predicate but the cut, calls with atom functors, no function term -/
 def ffreeG : Goal → Bool
   | .call t => ffree t && callOK t
-  | .bip _ _ => false
+  | .bip name none => name == "!"
+  | .bip _ (some _) => false
   | .and gs => ffreeGL gs
   | .or gs => ffreeGL gs
   | .time gs => ffreeGL gs
@@ -308,7 +309,8 @@ end
 mutual
 def rngG (lo hi : Nat) : Goal → Bool
   | .call t => rng lo hi t && callOK t
-  | .bip _ _ => false
+  | .bip name none => name == "!"
+  | .bip _ (some _) => false
   | .and gs => rngGL lo hi gs
   | .or gs => rngGL lo hi gs
   | .time gs => rngGL lo hi gs
@@ -324,7 +326,8 @@ theorem rngG_mono {lo hi hi' : Nat} (h : hi ≤ hi') : ∀ g : Goal, rngG lo hi 
   | .call t, hg => by
     simp only [rngG, Bool.and_eq_true] at hg ⊢
     exact ⟨rng_mono h t hg.1, hg.2⟩
-  | .bip _ _, hg => by simp [rngG] at hg
+  | .bip _ none, hg => by simpa only [rngG] using hg
+  | .bip _ (some _), hg => by simp [rngG] at hg
   | .and gs, hg => by simp only [rngG] at hg ⊢; exact rngGL_mono h gs hg
   | .or gs, hg => by simp only [rngG] at hg ⊢; exact rngGL_mono h gs hg
   | .time gs, hg => by simp only [rngG] at hg ⊢; exact rngGL_mono h gs hg
@@ -343,7 +346,8 @@ theorem goodG_of_rngG {lo hi : Nat} : ∀ g : Goal, rngG lo hi g = true → good
     simp only [rngG, Bool.and_eq_true] at hg
     simp only [goodG, Bool.and_eq_true]
     exact ⟨good_of_rng t hg.1, hg.2⟩
-  | .bip _ _, hg => by simp [rngG] at hg
+  | .bip _ none, hg => by simpa only [rngG, goodG] using hg
+  | .bip _ (some _), hg => by simp [rngG] at hg
   | .and gs, hg => by simp only [rngG] at hg; simp only [goodG]; exact goodGL_of_rngGL gs hg
   | .or gs, hg => by simp only [rngG] at hg; simp only [goodG]; exact goodGL_of_rngGL gs hg
   | .time gs, hg => by simp only [rngG] at hg; simp only [goodG]; exact goodGL_of_rngGL gs hg
@@ -363,7 +367,8 @@ theorem mapG_above {ν : NMap} {ρ : String → String} {lo hi : Nat} (h : ∀ i
   | .call t, hg => by
     simp only [rngG, Bool.and_eq_true] at hg
     simp only [mapG, mapN_above h t hg.1]
-  | .bip _ _, hg => by simp [rngG] at hg
+  | .bip _ none, _ => rfl
+  | .bip _ (some _), hg => by simp [rngG] at hg
   | .and gs, hg => by simp only [rngG] at hg; simp only [mapG, mapGL_above h gs hg]
   | .or gs, hg => by simp only [rngG] at hg; simp only [mapG, mapGL_above h gs hg]
   | .time gs, hg => by simp only [rngG] at hg; simp only [mapG, mapGL_above h gs hg]
@@ -392,7 +397,11 @@ theorem renameGoal_rng (lo : Nat) : ∀ (g : Goal) (st : RenSt), ffreeG g = true
       simp only [rngG, rng, Bool.and_eq_true]
       exact ⟨⟨h1.1, h2⟩, h1.2.1, h1.2.2⟩
     | _ => simp [callOK] at hf
-  | .bip _ _, _, hf, _, _, _ => by simp [ffreeG] at hf
+  | .bip name none, st, hf, hm, r, hr => by
+    simp only [renameGoal, Res.ok.injEq] at hr
+    subst hr
+    exact ⟨by simpa only [ffreeG, rngG] using hf, hm, Nat.le_refl _⟩
+  | .bip _ (some _), _, hf, _, _, _ => by simp [ffreeG] at hf
   | .and gs, st, hf, hm, r, hr => by
     simp only [ffreeG] at hf
     simp only [renameGoal] at hr
@@ -491,7 +500,13 @@ theorem renameRule_rng (c : Nat) (r : Rule) (hr : ruleOK r) (x : Rule × RenSt) 
     obtain ⟨rt, mt, ct⟩ := rename_rng c t _ hb.1 mh
     simp only [rngG, Bool.and_eq_true]
     exact ⟨Nat.le_trans ch ct, ⟨rng_mono ct _ rh, hcall⟩, rt, callOK_rename t _ hb.2⟩
-  | bip name args => simp [ffreeG] at hb
+  | bip name args =>
+    cases args with
+    | none =>
+      simp only [Res.ok.injEq] at hx
+      subst hx
+      exact ⟨ch, ⟨rh, hcall⟩, by simpa only [ffreeG, rngG] using hb⟩
+    | some as => simp [ffreeG] at hb
   | and gs =>
     simp only [ffreeG] at hb
     cases h1 : renameGoals gs (renameTerm head ⟨[], c⟩).2 with
